@@ -216,7 +216,15 @@ fn gen_encode_case(r: &mut Rng, v5: bool, big: bool) -> (gv::OutboundPacket, rf:
             let over = if r.chance(1, 2) { Some(format!("assigned-{}", r.below(100))) } else { None };
             let cid = spec.client_id.clone().or(over.clone()).unwrap_or_default();
             let exp = expected_connect(&spec, v5, clean, &cid);
-            let label = json!({"connect": connect_spec_json(&spec), "connected_previously": previously, "client_id_override": over});
+            // C02 is about packets the client emits: ask the real engine whether it puts a CONNECT on
+            // the wire for these options at all (it refuses options that break the static rules)
+            let refused = {
+                let mut es = EngineSpec::default();
+                es.connect = spec.clone();
+                es.v5 = v5;
+                catch_unwind(AssertUnwindSafe(|| { let mut runner = Runner::new(es, 1 << 21); runner.apply(Event::Open { deadline_ms: 30_000 }).result.is_err() })).unwrap_or(false)
+            };
+            let label = json!({"connect": connect_spec_json(&spec), "connected_previously": previously, "client_id_override": over, "client_refuses_locally": refused});
             (gv::OutboundPacket::Connect { options: build_connect_options(&spec), connected_previously: previously, client_id_override: over }, rf::Packet::Connect(exp), none, label)
         }
         _ => {
@@ -242,6 +250,7 @@ fn norm_rule(e: &str) -> String {
 
 fn check_encode_case(v5: bool, packet: &gv::OutboundPacket, exp: &rf::Packet, res: OutboundAliasResolution, schedules: &[Vec<usize>], label: &Value, l: &mut Local) {
     let kind = exp.kind();
+    if label["client_refuses_locally"] == json!(true) { l.count("c02.connect_options_refused_by_the_client"); return; }
     let replay = json!({"kind": "codec-encode", "v5": v5, "input": label, "schedules": schedules});
     let mut first: Option<Vec<u8>> = None;
     for (si, sched) in schedules.iter().enumerate() {
